@@ -17,7 +17,7 @@ import (
 
 func init() {
 	vc.Register(&vc.Check{ID: "C06", Level: "model_checking", Run: run, Replay: replay, QuickSec: 170, ThoroSec: 1500,
-		Rule: "real Reader.ReadDocument (-> chipauth.DoChipAuth, pace CAM step) against the independent chip. Conforming side, all enumerated: 11 curves x {named, explicit parameters} x {3DES, AES-128/192/256} x key arrangement {one key without id, one key with id, two keys with ids and the info naming the second, no ChipAuthenticationInfo (3DES inferred, MSE:Set KAT)} x access control {BAC, PACE-GM}; terminal ephemeral scalar alphabet {2, n-2, pattern, leading-zero shared x} on every curve. Oracle: success reported, the chip switched keys and authenticated a command under them, two further protected reads succeed with equal restarted counters. Impostor side (chip without the private key): answers 9000 to MSE/GA, then to the protected probe every strategy of {own (wrong-key) session response, bare 9000, bare 6A82, garbage, replay of the old session's last response, command echoed, response under the old session keys}; CAM impostor: chip-authentication data computed with a non-certified key => never reported successful. states = reads, transitions = exchanges; distinct_nontrivial = distinct (configuration, scalar/strategy, outcome)",
+		Rule: "real Reader.ReadDocument (-> chipauth.DoChipAuth, pace CAM step) against the independent chip. Conforming side, all enumerated: 11 curves x {named, explicit parameters} x {3DES, AES-128/192/256} x key arrangement {one key without id, one key with id, two keys with ids and the info naming the second, no ChipAuthenticationInfo (3DES inferred, MSE:Set KAT)} x access control {BAC, PACE-GM}; terminal ephemeral scalar alphabet {2, n-2, pattern, leading-zero shared x} on every curve. Oracle: success reported, the chip switched keys and authenticated a command under them, two further protected reads succeed with equal restarted counters. Impostor side (chip without the private key): answers 9000 to MSE/GA, then to the protected probe every strategy of {own (wrong-key) session response, SM-formatted 9000 with an empty / 1-byte / zero / absent MAC, bare 9000, bare 6A82, garbage, replay of the old session's last response, command echoed, response under the old session keys}; CAM impostor: chip-authentication data computed with a non-certified key => never reported successful. states = reads, transitions = exchanges; distinct_nontrivial = distinct (configuration, scalar/strategy, outcome)",
 		Assume: []string{"refchip CA follows ICAO 9303-11 §6.2 / BSI TR-03110 (ECKA with FE2OS secret, key switch after the response to GENERAL AUTHENTICATE / MSE:Set KAT, counter restart)", "discrete log not searched"}})
 }
 
@@ -133,6 +133,14 @@ func runOne(cc caCase) result {
 						return sm.Wrap(nil, 0x9000, false)
 					}
 					return nil
+				case "sm-format-empty-mac":
+					return []byte{0x99, 0x02, 0x90, 0x00, 0x8E, 0x00, 0x90, 0x00}
+				case "sm-format-1-byte-mac":
+					return []byte{0x99, 0x02, 0x90, 0x00, 0x8E, 0x01, 0x00, 0x90, 0x00}
+				case "sm-format-zero-mac":
+					return []byte{0x99, 0x02, 0x90, 0x00, 0x8E, 0x08, 0, 0, 0, 0, 0, 0, 0, 0, 0x90, 0x00}
+				case "sm-format-no-mac":
+					return []byte{0x99, 0x02, 0x90, 0x00, 0x90, 0x00}
 				case "bare-9000":
 					return []byte{0x90, 0x00}
 				case "bare-6A82":
@@ -292,7 +300,7 @@ scal:
 	}
 imp:
 	sec3 := "impostor chip (no private key)"
-	strategies := []string{"conforming-refusal", "own-wrong-key-session", "bare-9000", "bare-6A82", "garbage", "replay-old-session", "echo-command"}
+	strategies := []string{"conforming-refusal", "own-wrong-key-session", "sm-format-empty-mac", "sm-format-1-byte-mac", "sm-format-zero-mac", "sm-format-no-mac", "bare-9000", "bare-6A82", "garbage", "replay-old-session", "echo-command"}
 	curves := []string{"P-256", "brainpoolP256r1", "P-192", "brainpoolP512r1"}
 	if c.Thorough() {
 		curves = refpki.CurveNames
